@@ -5,6 +5,7 @@ go 1.21
 require (
 	github.com/anishathalye/porcupine v1.3.0
 	github.com/dgraph-io/badger/v4 v4.2.0
+	github.com/gofrs/uuid/v5 v5.0.0
 	github.com/ostafen/clover/v2 v2.0.0
 )
 
@@ -12,7 +13,6 @@ require (
 	github.com/cespare/xxhash/v2 v2.2.0 // indirect
 	github.com/dgraph-io/ristretto v0.1.1 // indirect
 	github.com/dustin/go-humanize v1.0.1 // indirect
-	github.com/gofrs/uuid/v5 v5.0.0 // indirect
 	github.com/gogo/protobuf v1.3.2 // indirect
 	github.com/golang/glog v1.1.2 // indirect
 	github.com/golang/groupcache v0.0.0-20210331224755-41bb18bfe9da // indirect
